@@ -417,6 +417,8 @@ func (r *RefCount[T]) resolve(ctx context.Context, waitCh, doneCh chan struct{},
 	if waitCh != nil {
 		select {
 		case <-ctx.Done():
+			// wait for the previous resolver before marking this one as done
+			<-waitCh
 			return
 		case <-waitCh:
 		}
